@@ -18,6 +18,7 @@ P(i) == [op |-> "pub_idx", v |-> 0, i |-> i]
 U(i) == [op |-> "unleak_idx", v |-> 0, i |-> i]
 
 \* 2 producers x 2, 2 consumers x 2: the buffer (N=2) fills and drains inside the run
+Script_2p2c1 == << <<E(11)>>, <<E(21), E(22)>>, <<D>>, <<D, D>> >>
 Script_2p2c == << <<E(11), E(12)>>, <<E(21), E(22)>>, <<D, D>>, <<D, D>> >>
 Script_2p1c == << <<E(11), E(12)>>, <<E(21), E(22)>>, <<D, D>> >>
 Script_1p2c == << <<E(11), E(12), E(13)>>, <<D, D>>, <<D>> >>
@@ -33,6 +34,7 @@ Script_resv2 == << <<R, F(1, 11), P(1), R, U(1), R, F(1, 12), P(1), E(13)>>, <<D
 Script_pool3 == << <<A, A, Fr, A, Fr, Fr>>, <<A, Fr, A, Fr>>, <<A, A, FrL, Fr>> >>
 Script_pool3s == << <<A, A, Fr, A>>, <<A, Fr, A>>, <<A, FrL>> >>
 Script_pool2 == << <<A, A, A, Fr, Fr, A>>, <<A, Fr, A, A, Fr, Fr>> >>
+Script_pool4s == << <<A, Fr, A>>, <<A, Fr>>, <<A, Fr>>, <<A>> >>
 Script_pool4 == << <<A, Fr, A, Fr>>, <<A, Fr, A, Fr>>, <<A, Fr>>, <<A, Fr>> >>
 
 MCInit == Init /\ opi = [p \in Procs |-> 1] /\ got = [p \in Procs |-> <<>>]
